@@ -4,6 +4,7 @@
 -/
 import Phil.Wire
 import Phil.Show
+import Phil.Conv
 namespace Phil
 
 def Quote.tag : Quote → String
@@ -53,5 +54,79 @@ def okJ (j : J) : J := .arr [.str "ok", j]
 def resJ {α : Type} (f : α → J) : R α → J
   | .ok a => okJ (f a)
   | .error e => e.toJ
+
+end Phil
+
+namespace Phil
+
+def PNum.toJ : PNum → J
+  | .int i => .arr [.str "int", .num i]
+  | .flt n d => .arr [.str "flt", .num n, .num d]
+  | .inf => .arr [.str "inf"]
+  | .ninf => .arr [.str "ninf"]
+  | .nan => .arr [.str "nan"]
+
+def PNum.ofJ : J → Option PNum
+  | .arr [.str "int", .num i] => some (.int i)
+  | .arr [.str "flt", .num n, .num d] => some (.flt n d.toNat)
+  | .arr [.str "inf"] => some .inf
+  | .arr [.str "ninf"] => some .ninf
+  | .arr [.str "nan"] => some .nan
+  | _ => none
+
+partial def PVal.toJ : PVal → J
+  | .none => .null
+  | .auto => .arr [.str "auto"]
+  | .bool b => .arr [.str "b", .bool b]
+  | .num n => n.toJ
+  | .str s => .arr [.str "s", J.text s]
+  | .list l => .arr [.str "l", .arr (l.map PVal.toJ)]
+  | .words ws => .arr [.str "w", .arr (ws.map Word.toJ)]
+
+partial def PVal.ofJ : J → Option PVal
+  | .null => some .none
+  | .arr [.str "auto"] => some .auto
+  | .arr [.str "b", .bool b] => some (.bool b)
+  | .arr [.str "s", t] => t.getStr.map PVal.str
+  | .arr [.str "l", .arr l] => (l.mapM PVal.ofJ).map PVal.list
+  | .arr [.str "w", .arr l] => (l.mapM Word.ofJ).map PVal.words
+  | j => (PNum.ofJ j).map PVal.num
+
+def AttrVal.ofJ : J → Option AttrVal
+  | .null => some .none
+  | .arr [.str "auto"] => some .auto
+  | .arr [.str "s", t] => t.getStr.map AttrVal.str
+  | .arr [.str "b", .bool b] => some (.bool b)
+  | .arr [.str "i", .num i] => some (.int i)
+  | _ => none
+
+def EvalRes.ofJ : J → Option EvalRes
+  | .arr [.str "bool", .bool b] => some (.bool b)
+  | .arr [.str "other"] => some .other
+  | .arr [.str "none"] => some .noneVal
+  | .arr [.str "raises"] => some .raises
+  | j => (PNum.ofJ j).map EvalRes.num
+
+def evalEnvOfJ (j : J) : Option EvalEnv := do
+  let l ← j.getArr
+  let tbl ← l.mapM (fun e => match e with
+    | .arr [k, v] => do pure ((← k.getStr), (← EvalRes.ofJ v))
+    | _ => none)
+  pure (fun s => (tbl.find? (·.1 == s)).map (·.2))
+
+def fmtEnvOfJ (j : J) : Option FmtEnv := do
+  let l ← j.getArr
+  let tbl ← l.mapM (fun e => match e with
+    | .arr [k, v] => do pure ((← PNum.ofJ k), (← v.getStr))
+    | _ => none)
+  pure (fun n => (tbl.find? (·.1 == n)).map (·.2))
+
+/-- the converter named by a `.type` text; `null` = no type (strings semantics) -/
+def convOfJ (j : J) : Option (R Conv) :=
+  match j with
+  | .null => some (.ok .strings)
+  | j => j.getStr.map (fun t => convFromExpr (strip t) none)
+
+def wordsOfJ (j : J) : Option (List Word) := do (← j.getArr).mapM Word.ofJ
 
 end Phil
